@@ -770,12 +770,12 @@ def gen_scenario(rng):
     k = rng.random()
     change = lambda o: rng.choice([f'setT {o} {rng.choice(TS)}', f'setP {o} {rng.choice(PS)}', f'nudge {o} T 1e-3', f'scale {o} 2',
                                    f'setflow {o} {rng.randrange(8)} {rng.choice([1, 4])}', f'thermo {o} 2'])
-    if k < 0.3:
+    if k < 0.25:
         # single-phase: write / read in volumetric units, change the state, read again
         ops.append(f'new single {rng.choice([0, 0, 2, 3])} {T0} {P0} {rng.choice("lg")} {fl()}')
         if rng.random() < 0.6: ops.append(f'setvol 0 {rng.choice(["Water", "Ethanol", "Methanol"])} {rng.choice([0.5, 1.0, 0.02])} 0')
         ops += [f'readflow 0 {u}', change(0), f'readflow 0 {u}', 'read 0 F_vol', change(0), f'readflow 0 {u}']
-    elif k < 0.55:
+    elif k < 0.45:
         # multi-phase stream and one of its phase views
         ph = rng.choice(['lg', 'lg', 'lLg', 'ls'])
         ops.append(f'new multi {rng.choice([0, 0, 2, 3])} {T0} {P0} {ph} {fl()}')
@@ -783,7 +783,7 @@ def gen_scenario(rng):
         rd = rng.choice([0, 1])
         if rng.random() < 0.5: ops.append(f'setvol 0 {rng.choice(["Water", "Ethanol"])} {rng.choice([0.5, 1.0])} {rng.randrange(3)}')
         ops += [f'readflow {rd} {u}', change(0), f'readflow {rd} {u}', f'readflow {1 - rd} {u}']
-    elif k < 0.8:
+    elif k < 0.65:
         # two streams of one class and phase set: one takes over the other's T and P OBJECT (link_with(TP=True) alone, or
         # with the flows); the flow views of the stream and of its phase views must follow the new object
         multi = rng.random() < 0.7
@@ -798,13 +798,25 @@ def gen_scenario(rng):
         ops.append(f'link 0 1 {rng.choice([0, 0, 1])} 0 1')
         ops.append(rng.choice([f'setT 1 {rng.choice(TS)}', f'setP 1 {rng.choice(PS)}', f'setT 0 {rng.choice(TS)}']))
         ops += [f'readflow {rd} {u}', f'readflow 1 {u}', 'read 0 F_vol']
-    elif k < 0.9:
+    elif k < 0.75:
         # a rejected H / S assignment on one stream must leave nothing behind in the (shared) property package: a second
         # stream of the package reads a property, leaves the state and comes back to exactly that state afterwards
         pk = rng.choice([4, 4, 4, 0, 3]); at = rng.choice(['H', 'S', 'Cn', 'h', 'C'])
         ops.append(f'new single {pk} {T0} {P0} {rng.choice("lg")} {fl()}'); ops.append(f'new single {pk} {rng.choice(TS)} {rng.choice(PS)} {rng.choice("lg")} {fl()}')
         T1 = rng.choice([t for t in TS if t != T0])
         ops += [f'read 0 {at}', f'badset 1 {rng.choice("HSh")}', f'setT 0 {T1}', f'read 0 {at}', f'setT 0 {T0}', f'read 0 {at}', f'read 1 {at}']
+    elif k < 0.83:
+        # a phase view obtained BEFORE its parent is unlinked must follow the parent's new thermal condition afterwards
+        ph = rng.choice(['lg', 'lLg']); at = rng.choice(ATTRS_SINGLE)
+        ops.append(f'new multi 0 {T0} {P0} {ph} {fl()}'); ops.append(f'view 0 {rng.choice(ph)}')
+        ops += [f'read 1 {at}', 'unlink 0', rng.choice([f'setT 0 {rng.choice([t for t in TS if t != T0])}', f'setP 0 {rng.choice([p for p in PS if p != P0])}']),
+                f'read 1 {at}', f'readflow 1 {u}', f'read 0 {rng.choice(ATTRS_MULTI)}']
+    elif k < 0.91:
+        # in-place scaling by exactly zero, then a refill in place: the flow views must follow (boundary value of `scale`)
+        kind = rng.choice(['single', 'multi'])
+        ops.append(f'new {kind} 0 {T0} {P0} {rng.choice("lg") if kind == "single" else "lg"} {fl()}')
+        ops += [f'readflow 0 {u}', 'scale 0 0', f'readflow 0 {u}', f'setflow 0 {rng.randrange(8)} {rng.choice([1, 4])}', f'setflow 0 {rng.randrange(8)} 2.5',
+                f'readflow 0 {u}', 'read 0 F_vol']
     else:
         # a phase view read before and after its parent changes package (same chemicals, other models)
         ph = rng.choice(['lg', 'lLg']); at = rng.choice(ATTRS_SINGLE)
